@@ -12,6 +12,8 @@ import Driver.C30
 import Driver.C05
 import Driver.C31
 import Driver.C07
+import Driver.C17
+import Driver.C32
 /-
   Model driver: reads one request per line on stdin (`<suite> <op> <args…>`), answers one
   line per request on stdout.  Imports models only (no Mathlib, no proofs).
@@ -33,6 +35,8 @@ def dispatch (fs : List String) : String :=
   | "c05" :: rest => Driver.c05 rest
   | "c31" :: rest => Driver.c31 rest
   | "c07" :: rest => Driver.c07 rest
+  | "c17" :: rest => Driver.c17 rest
+  | "c32" :: rest => Driver.c32 rest
   | _ => "bad-op"
 
 partial def loop (h : IO.FS.Stream) (out : IO.FS.Stream) : IO Unit := do
